@@ -16,6 +16,7 @@ import KafkaVerif.Lemmas.ByteLayout
 import KafkaVerif.Lemmas.ReaderRun
 import KafkaVerif.Lemmas.PullReader
 import KafkaVerif.Lemmas.ReaderWorld
+import KafkaVerif.Lemmas.ReaderSystem
 
 namespace KV.C02
 
@@ -651,5 +652,45 @@ one enqueues; FetchMessage skips the three stale entries -/
 example : (frun [(10, 0), (11, 1), (12, 2), (13, 3)] {}
     [.setOffset 10, .enqueue 1, .enqueue 1, .setOffset 12, .enqueue 1, .enqueue 2, .fetch]).map (·.2) = some [(12, 2)] := by
   decide
+
+
+/-! ## 5. The whole Reader (Model/ReaderSystem.lean)
+
+The front of §4 with, instead of abstract fetchers, one loop of §3 per fetcher ever started, each against the world of
+`Model/ReaderWorld.lean` (broker under the fetch contract, connections lost at any byte, deadlines, partition errors,
+backoff) and the decoder as written; what a loop pushes goes into the queue with the loop's version tag.  Events:
+`SetOffset(o)` (also the lazy start), a blocking call of any fetcher's loop — current or superseded — returning with
+whatever the world does, `FetchMessage`. -/
+
+/-- every reachable state of the system satisfies the invariant the theorems below start from -/
+theorem reader_reachable (cfg : RCfg) (items : List Item) (nb : Int) (hnb : 0 ≤ nb) (hwf : LWF nb items) (es : List CEv)
+    (hok : ∀ e ∈ es, e.ok items) (c : CS) (ms : List Rec) (hr : crun cfg items {} es = some (c, ms)) : CInv items c :=
+  (crun_sim cfg items nb hnb hwf es {} c ms (cinv_init items) hok hr).1
+
+/-- **C02**: in any reachable state of the Reader, after `SetOffset(o)` (an absolute offset or FirstOffset) the
+messages the following `FetchMessage` calls return are — in order, without gap or repetition — the stored records at or
+above `o`: `ms = take |ms| (feed log o)`.  For every well-formed layout of the partition (formats 0/1/2, compression,
+holes, empty batches), every interleaving of FetchMessage with the loops' steps, every behaviour of broker (under the
+fetch contract), network and clock, whatever the superseded fetchers still do and whatever is still queued. -/
+theorem reader_delivers (cfg : RCfg) (items : List Item) (nb : Int) (hnb : 0 ≤ nb) (hwf : LWF nb items) (c0 c' : CS)
+    (h0 : CInv items c0) (o : Int) (ho : -2 ≤ o ∧ o ≠ -1) (es : List CEv) (hok : ∀ e ∈ es, e.ok items)
+    (hns : ∀ e ∈ es, e.notSet) (ms : List Rec) (hr : crun cfg items c0 (.setOffset o :: es) = some (c', ms)) :
+    ms = (feed (allRecords items) o).take ms.length := by
+  obtain ⟨es', hn, hf⟩ := crun_after_set cfg items nb hnb hwf c0 c' h0 o ho es hok hns ms hr
+  exact setoffset_delivers (allRecords items) c0.fs c'.fs h0.finv o es' hn ms hf
+
+/-- … from the very start: a Reader configured with start offset `o` -/
+theorem reader_delivers_from_start (cfg : RCfg) (items : List Item) (nb : Int) (hnb : 0 ≤ nb) (hwf : LWF nb items) (c' : CS)
+    (o : Int) (ho : -2 ≤ o ∧ o ≠ -1) (es : List CEv) (hok : ∀ e ∈ es, e.ok items) (hns : ∀ e ∈ es, e.notSet)
+    (ms : List Rec) (hr : crun cfg items {} (.setOffset o :: es) = some (c', ms)) :
+    ms = (feed (allRecords items) o).take ms.length :=
+  reader_delivers cfg items nb hnb hwf {} c' (cinv_init items) o ho es hok hns ms hr
+
+/-- a run of the whole system: start at FirstOffset, a fetch round, SetOffset(5) while two messages are queued, the
+superseded loop still pushes a round, the new one starts inside the compressed batch; FetchMessage returns 5, 9 -/
+example : (crun {} [.b2 3 4 false 24 [(0, 1, 12), (1, 2, 12)], .b2 5 9 true 30 [(0, 3, 20), (4, 4, 20)]] {}
+    [.setOffset (-2), .env 1 (.initOk 3 10), .env 1 .sleepOk, .env 1 (.fetch 10 10 false), .setOffset 5,
+     .env 1 .sleepOk, .env 1 (.fetch 1000 10 false), .env 2 (.initOk 3 10), .env 2 .sleepOk, .env 2 (.fetch 10 10 true),
+     .fetch, .fetch]).map (·.2) = some [(5, 3), (9, 4)] := by decide
 
 end KV.C02
